@@ -23,6 +23,12 @@ import (
 	"golang.org/x/tools/go/ssa"
 )
 
+// goExitSignals: the signals on which a Go process exits when they are sent to it (os/signal, "Default behavior of
+// signals in Go programs"): SIGHUP, SIGINT, SIGTERM exit; SIGQUIT, SIGILL, SIGTRAP, SIGABRT, SIGSTKFLT, SIGSYS exit
+// with a stack dump; SIGBUS, SIGFPE, SIGSEGV sent by kill(2) are not synchronous and are fatal as well. (SIGEMT does
+// not exist on the Linux ports this repository is analysed for; SIGSTKFLT exists on all of them.)
+var goExitSignals = []string{"SIGHUP", "SIGINT", "SIGTERM", "SIGQUIT", "SIGILL", "SIGTRAP", "SIGABRT", "SIGSTKFLT", "SIGSYS", "SIGBUS", "SIGFPE", "SIGSEGV"}
+
 func ignoredSignals(p *Prog) (*ssa.Global, []int64, string) {
 	init := p.Func("container", "Init")
 	if init == nil {
